@@ -16,6 +16,7 @@ import FFVerif.Model.Cumulant
 import FFVerif.Model.CacheTrace
 import FFVerif.Model.Effects
 import FFVerif.Model.Validate
+import FFVerif.Model.ConcatLogic
 
 namespace FFVerif.Model
 open FFVerif FFVerif.Proto
@@ -67,7 +68,7 @@ def handleMore (toks : List String) : String :=
     "ok " ++ showFloats #[v]
   | toks =>
     -- components that live in their own model files
-    let handlers : List (List String → Option String) := [handleDiag, Tensor.handleTensor, handleSecondOrder, handleGradient, Pulse.handlePulse, handleBasis, handleCumulant, Cache.handleCacheTrace, Effects.handleEffects, Validate.handleValidate]
+    let handlers : List (List String → Option String) := [handleDiag, Tensor.handleTensor, handleSecondOrder, handleGradient, Pulse.handlePulse, handleBasis, handleCumulant, Cache.handleCacheTrace, Effects.handleEffects, Validate.handleValidate, ConcatLogic.handleConcatLogic]
     match handlers.findSome? (fun h => h toks) with
     | some r => r
     | none => "err bad-op"
